@@ -91,6 +91,8 @@ type FieldRef struct {
 	Flat bool
 	// Part: a flat field that is not embedded (a named part of the holder's state, see partOfHolder)
 	Part bool
+	// Owner: the struct type the field was selected from (told to the oracle when the field is first read)
+	Owner types.Type
 }
 
 // partOfHolder: field i of the holder struct is a by-value struct of a named, unexported type of the holder's own
@@ -266,6 +268,8 @@ type Interp struct {
 	GoInline  bool // run goroutines synchronously at their go statement
 	// OnGo, when set, is told when an inlined goroutine starts (enter) and when it has run to completion
 	OnGo func(g *ssa.Go, enter bool)
+	// FieldOwner: while the oracle is asked for an unset field, the struct type the field is selected from (nil if unknown)
+	FieldOwner types.Type
 	// OnChan, when set, is told of every completed send and receive
 	OnChan   func(op string, ch *Chan)
 	Trace    []string // branch decisions, for witnesses
@@ -632,7 +636,22 @@ func keyOf(v Value) string {
 	case Int:
 		return fmt.Sprint(int64(x))
 	case *Tok:
+		if x.Attr["zeroed"] != nil && strings.HasPrefix(x.ID, "alloc") && len(x.Fields) > 0 {
+			// a struct value built by the interpreted code used as a key: equal field by field
+			var names []string
+			for k := range x.Fields {
+				names = append(names, k)
+			}
+			sort.Strings(names)
+			out := "struct{"
+			for _, k := range names {
+				out += k + "=" + keyOf(x.Fields[k]) + ";"
+			}
+			return out + "}"
+		}
 		return "tok:" + x.ID
+	case Bool:
+		return fmt.Sprint(bool(x))
 	}
 	undecided("unsupported map key %s", Show(v))
 	return ""
@@ -735,6 +754,8 @@ func (ip *Interp) load(addr Value, typ types.Type) Value {
 				return a.Obj
 			}
 		}
+		ip.FieldOwner = a.Owner
+		defer func() { ip.FieldOwner = nil }()
 		return ip.LoadField(a.Obj, a.Name, typ)
 	case *ElemRef:
 		if a.Arr != nil {
@@ -1140,7 +1161,7 @@ func (ip *Interp) step(f *frame, v ssa.Value) Value {
 			// looked up in the holder (whoever set the holder up by field names need not know about the part)
 			flat = true
 		}
-		return &FieldRef{Obj: obj, Name: fld.Name(), Typ: fld.Type(), Flat: flat, Part: flat && !fld.Embedded()}
+		return &FieldRef{Obj: obj, Name: fld.Name(), Typ: fld.Type(), Flat: flat, Part: flat && !fld.Embedded(), Owner: x.X.Type().Underlying().(*types.Pointer).Elem()}
 	case *ssa.Field:
 		base := ip.eval(f, x.X)
 		st := x.X.Type().Underlying().(*types.Struct)
